@@ -224,6 +224,85 @@ def inst(rng, cls, batch=(), n=4, psd=False, rect=None):
     raise ValueError(cls)
 
 
+# ------------------------------------------------------------------------------------------ structurally distinct instances per class
+# inst() has ONE canonical instance per class (dense children).  The classes below change behaviour with the STRUCTURE of their
+# constructor arguments (metaclass rewrites on the base class, masks that differ between rows and columns, interpolation with
+# several weights per row, wrappers forwarding to the wrapped class): variant(name) = the class over each child family.
+
+def _mask(keep_out, sz):
+    return {"shape": [sz], "data": [0 if i == keep_out else 1 for i in range(sz)], "bool": True}
+
+
+def _idx(rng, batch, rows, k, bm):
+    return {"shape": list(batch) + [rows, k], "data": [rng.randrange(bm) for _ in range(int(math.prod(list(batch) + [rows, k])))], "long": True}
+
+
+def _child(rng, fam, batch, n):
+    if fam == "Diag":
+        return _diag(rng, batch, n)
+    if fam == "CDiag":
+        return _cdiag(rng, batch, n)
+    if fam == "Identity":
+        return {"cls": "Identity", "n": n, "batch": list(batch)}
+    if fam == "Toeplitz":
+        return _toeplitz(rng, batch, n, False)
+    if fam == "Tri":
+        return _tri(rng, batch, n, bool(rng.getrandbits(1)))
+    if fam == "Dense":
+        return _dense(rng, batch, n, n)
+    raise ValueError(fam)
+
+
+_BLOCK = {"BlockInter": "BlockInterleaved", "BlockDiag": "BlockDiag", "SumBatch": "SumBatch"}
+VARIANTS = (["%s:%s" % (b, f) for b in ("BlockInter", "BlockDiag", "SumBatch") for f in ("Diag", "CDiag", "Identity", "Toeplitz", "Tri")]
+            + ["Masked:%s:%s" % (k, f) for k in ("uneq", "eq") for f in ("Dense", "Toeplitz", "Diag")]
+            + ["Interp:%s:%s" % (k, f) for k in ("2", "3", "sym3") for f in ("Dense", "Toeplitz", "Diag")]
+            + ["CMul:%s:%s" % (s, v) for s in ("pos", "neg") for v in ("Interp:2:Dense", "Masked:uneq:Dense", "BlockInter:Diag", "Toeplitz", "Diag")]
+            + ["Kron:Diag:Dense", "Kron:Toeplitz:Diag", "Kron:Diag:Diag", "Sum:Diag:Diag", "Sum:Masked:Dense", "Sum:Interp:Diag",
+               "AddedDiag:Toeplitz", "AddedDiag:Interp", "AddedDiag:Masked", "AddedDiag:BlockInter", "BatchRepeat:Diag", "BatchRepeat:Toeplitz",
+               "Matmul:Diag:Toeplitz", "Matmul:Interp:Diag", "Matmul:Masked:Diag"])
+
+
+def variant(rng, name, batch=(), n=4):
+    batch = list(batch)
+    h = max(1, n // 2)
+    parts = name.split(":")
+    k = parts[0]
+    if k in _BLOCK:
+        size = n if k == "SumBatch" else h
+        return {"cls": _BLOCK[k], "base": _child(rng, parts[1], batch + [2], size), "block_dim": -3}
+    if k == "Masked":
+        i = rng.randrange(n + 1)
+        j = i if parts[1] == "eq" else (i + 1 + rng.randrange(n)) % (n + 1)
+        return {"cls": "Masked", "base": _child(rng, parts[2], batch, n + 1), "row_mask": _mask(i, n + 1), "col_mask": _mask(j, n + 1)}
+    if k == "Interp":
+        bm = 3
+        kk = 3 if parts[1] in ("3", "sym3") else 2
+        li, lv = _idx(rng, batch, n, kk, bm), ob.rand_t(rng, batch + [n, kk], -2, 2, nonzero=True)
+        if parts[1] == "sym3":
+            ri, rv = li, lv
+        else:
+            ri, rv = _idx(rng, batch, n, kk, bm), ob.rand_t(rng, batch + [n, kk], -2, 2, nonzero=True)
+        return {"cls": "Interpolated", "base": _child(rng, parts[2], batch, bm), "li": li, "lv": lv, "ri": ri, "rv": rv}
+    if k == "CMul":
+        inner = ":".join(parts[2:])
+        base = variant(rng, inner, batch, n) if ":" in inner else _child(rng, inner, batch, n)
+        return {"cls": "ConstantMul", "base": base, "c": ob.T([], [rng.choice([2, 3]) if parts[1] == "pos" else rng.choice([-2, -3])])}
+    sub = lambda f, sz: (variant(rng, {"Masked": "Masked:uneq:Dense", "Interp": "Interp:2:Dense", "BlockInter": "BlockInter:Diag"}[f], batch, sz)
+                         if f in ("Masked", "Interp", "BlockInter") else _child(rng, f, batch, sz))
+    if k == "Kron":
+        return {"cls": "Kron", "ops": [sub(parts[1], 2), sub(parts[2], h)]}
+    if k == "Sum":
+        return {"cls": "Sum", "ops": [sub(parts[1], n), sub(parts[2], n)]}
+    if k == "AddedDiag":
+        return {"cls": "AddedDiag", "base": sub(parts[1], n), "diag": _diag(rng, batch, n, pos=True)}
+    if k == "BatchRepeat":
+        return {"cls": "BatchRepeat", "base": _child(rng, parts[1], [1] * len(batch), n), "rep": batch if batch else [1]}
+    if k == "Matmul":
+        return {"cls": "Matmul", "l": sub(parts[1], n), "r": sub(parts[2], n)}
+    raise ValueError(name)
+
+
 def build(e, dtype=torch.float64):
     return ob.build(e, dtype)
 
